@@ -465,6 +465,13 @@ func initTopicP2P(t *Topic, sreg *ClientComMessage) error {
 			if err = store.Subs.Create(subToMake); err != nil {
 				return err
 			}
+			if !user1only {
+				// Re-creating a deleted subscription of the other user keeps its stored 'private' value:
+				// load it to keep the cache consistent with the database.
+				if restored, err := store.Subs.Get(t.name, userID2, false); err == nil && restored != nil {
+					sub2.Private = restored.Private
+				}
+			}
 		}
 
 		// Public and Trusted are already swapped.
